@@ -3,7 +3,7 @@ import copy
 import datetime
 import decimal
 
-from .. import common, gen, ops, walker, storemodel
+from .. import valuestate, common, gen, ops, walker, storemodel
 from autobean_refactor import models
 from autobean_refactor.models import base as mbase
 from autobean_refactor.models.internal.repeated import Repeated
@@ -12,7 +12,7 @@ CASES = {'quick': 1500, 'thorough': 40000}
 GATES = {
     'quick': {'evaluations': 40000, 'copies_checked': 30000, 'independence_checks': 2500, 'edits_on_copy_changing_it': 1500,
               'edits_on_original_changing_it': 1500, 'copies_after_claim_history': 5000, 'copied_classes': 30, 'copies_with_claimed_comment': 2000, 'container_copies': 2000,
-              'models_with_custom_indent_by': 200, 'plain_fields_compared': 100000},
+              'models_with_custom_indent_by': 200, 'value_state_copies': 3000, 'plain_fields_compared': 100000},
     'thorough': {'evaluations': 1000000, 'copied_classes': 33},
 }
 RULE = ('case = one accepted generated document (both attribution modes; a third of the cases after a random claim/unclaim/auto-claim '
@@ -167,6 +167,23 @@ def run_case(col, r, idx):
             if claimed_history:
                 col.count('copies_after_claim_history')
             check_copy(col, text, path, m, orig_ids, dict(wit0, path=path))
+        # the copy says the same through the whole public read API (views, value properties, custom getters), caches primed or not
+        tm = walker.tree_models(f)
+        for path, m in [tm[0]] + r.sample(tm, min(3, len(tm))):
+            primed = r.random() < 0.5
+            if primed:
+                valuestate.value_state(m)
+            try:
+                c = copy.deepcopy(m)
+            except Exception:
+                continue
+            col.ev()
+            col.count('value_state_copies')
+            dv = valuestate.first_difference(valuestate.value_state(m), valuestate.value_state(c))
+            if dv:
+                col.violation(f'copy-value-state:{dv[1]}.{dv[2]}', f'deepcopy({path}): {dv[0]}.{dv[2]} reads {str(dv[4])[:120]} on the copy, '
+                              f'{str(dv[3])[:120]} on the original (views read before copying: {primed})', dict(wit0, path=path))
+                return
         # one deepcopy call over a container holding a model and one of its own descendants (a shared memo)
         trees = walker.tree_models(f)
         for _ in range(2):
